@@ -76,16 +76,41 @@ def strip_comments(src):
     return "".join(out)
 
 
-def hygiene():
-    """No Admitted/admit/Axiom/Parameter/...; Variable/Hypothesis only inside a Section."""
+def coq_closure(roots):
+    """Transitive closure of `From FV Require Import/Export X.Y` starting from roots (paths relative to coq/)."""
+    seen, todo = set(), list(roots)
+    while todo:
+        rel = todo.pop()
+        if rel in seen:
+            continue
+        path = os.path.join(COQ, rel)
+        if not os.path.exists(path):
+            continue
+        seen.add(rel)
+        src = strip_comments(open(path).read())
+        for m in re.finditer(r"From\s+FV\s+Require\s+(?:Import|Export)?\s*((?:[A-Za-z_]\w*(?:\.[A-Za-z_]\w*)*\s*)+)\.(?=\s)", src + " "):
+            for mod in m.group(1).split():
+                todo.append(mod.replace(".", "/") + ".v")
+        for m in re.finditer(r"Require\s+(?:Import\s+|Export\s+)?FV\.([\w.]*\w)", src):
+            todo.append(m.group(1).replace(".", "/") + ".v")
+    return sorted(seen)
+
+
+def hygiene(files=None):
+    """No Admitted/admit/Axiom/Parameter/...; Variable/Hypothesis only inside a Section.
+    `files`: paths relative to coq/ (default: every .v file of the development)."""
     problems = []
-    for path in sorted(glob.glob(os.path.join(COQ, "**", "*.v"), recursive=True)):
+    if files is None:
+        paths = sorted(glob.glob(os.path.join(COQ, "**", "*.v"), recursive=True))
+    else:
+        paths = [os.path.join(COQ, f) for f in files]
+    for path in paths:
         src = strip_comments(open(path).read())
         # blank out string literals
         src = re.sub(r'"[^"]*"', '""', src)
         depth = 0
         for ln, line in enumerate(src.split("\n"), 1):
-            if re.match(r"\s*(Section|Module)\s+\w+", line) and re.match(r"\s*Section\b", line):
+            if re.match(r"\s*Section\s+\w+", line):
                 depth += 1
             if re.match(r"\s*End\s+\w+\s*\.", line) and depth > 0:
                 depth -= 1
@@ -283,7 +308,9 @@ def main():
             broken.append("audit: " + e)
         axioms_seen = aud["theorems"]
         discharged = len([t for t in theorems if t in aud["theorems"]]) if not aud["errors"] else 0
-    hyg = hygiene()
+    closure = coq_closure(["Properties/%s.v" % pid] + [t[:-1] for t in P.get("coq_targets", [])]
+                          + ([P["run_vo"][:-1]] if P.get("run_vo") else []))
+    hyg = hygiene(closure)
     if hyg:
         broken.append("hygiene: " + "; ".join(hyg[:10]))
         discharged = 0
@@ -383,6 +410,7 @@ def main():
             "axioms": axioms_seen,
             "open_statements": P.get("open_statements", []),
             "gen_files": gen_info,
+            "coq_files": closure,
             "evaluations": (meta["cases"] + meta.get("oracle_evaluations", 0)) if meta else 0,
             "distinct_nontrivial": corr["distinct_nontrivial"],
             "rule": P.get("rule", ""),
